@@ -16,9 +16,10 @@ func ExploreChoices(c *Ctx, bound int, run func(prefix []int) []vrt.Point) (int6
 	type item struct {
 		prefix []int
 		used   int
+		expect []vrt.Point // the parent's trace up to and including the deviating point
 	}
 	var execs int64
-	stack := []item{{nil, 0}}
+	stack := []item{{nil, 0, nil}}
 	var shard int64
 	for len(stack) > 0 {
 		if c.Expired() {
@@ -28,6 +29,22 @@ func ExploreChoices(c *Ctx, bound int, run func(prefix []int) []vrt.Point) (int6
 		stack = stack[:len(stack)-1]
 		tr := run(it.prefix)
 		execs++
+		// determinism: replaying the prefix must pass through exactly the parent's choice points
+		// (same kind, same number of alternatives) - any difference means a source of
+		// nondeterminism the runtime does not own
+		if it.expect != nil {
+			c.Res.Replayed++
+			bad := len(tr) < len(it.expect)
+			for j := 0; !bad && j < len(it.expect); j++ {
+				if tr[j].N != it.expect[j].N || tr[j].Kind != it.expect[j].Kind {
+					bad = true
+				}
+			}
+			if bad {
+				c.Violate("harness-nondeterminism", "harness-nondeterminism", "replaying a choice prefix did not reproduce the parent's choice points: the execution depends on something the controlled runtime does not own", map[string]any{"choices": it.prefix})
+				continue
+			}
+		}
 		if bound >= 0 && it.used >= bound {
 			continue
 		}
@@ -45,7 +62,7 @@ func ExploreChoices(c *Ctx, bound int, run func(prefix []int) []vrt.Point) (int6
 					np[j] = tr[j].C
 				}
 				np[i] = alt
-				stack = append(stack, item{np, it.used + 1})
+				stack = append(stack, item{np, it.used + 1, tr[:i+1]})
 			}
 		}
 	}
